@@ -140,7 +140,11 @@ static void seq_del(unsigned pos) { unsigned k; for (k = 0; k < MAXQ; ++k) { if 
         ASSERT(is_que(&Q, seq, sn) && payload_kept(seq, sval, sn), what ": ring and payloads unchanged"); \
         ASSERT(Q.cur_ == c0 && Q.mem_ == m0 && Q.ptr_ == parr0 && Q.siz_ == SIZ, what ": pool and element size unchanged"); \
     } while (0)
-#define LEDGER() ASSERT(verif_live == (int)(Q.num_ + Q.cur_ + (Q.ptr_ ? 1 : 0)), "ledger: live blocks are exactly the enqueued nodes, the pooled nodes and the pool array")
+#define LEDGER() do { \
+        ASSERT(verif_live == (int)(Q.num_ + Q.cur_ + (Q.ptr_ ? 1 : 0)), "ledger: live blocks are exactly the enqueued nodes, the pooled nodes and the pool array"); \
+        { ND(unsigned, lw, u32); ND(unsigned, lv, u32); if (lw < Q.cur_) { ASSERT(Q.ptr_[lw] != A_NULL, "ledger: every pooled slot holds a node (no block is lost from the pool)"); \
+          if (lv < lw) { ASSERT(Q.ptr_[lv] != Q.ptr_[lw], "ledger: no node is pooled twice"); } } } \
+    } while (0)
 static int in_old_ring(a_list *x) { unsigned k; int r = 0; for (k = 0; k < MAXQ; ++k) { if (k < n0 && node0[k] == x) { r = 1; } } return r; }
 
 /* ---- push / insert ---- */
